@@ -316,7 +316,21 @@ func (p *gcmProxy) pump(a, b net.Conn) {
 	}
 }
 
+// execGcm: up to three attempts. The forging needs the GHASH key, which needs two frames of equal payload
+// that differ in one block (the harness makes A send them) — if an attempt does not recover it, or a forged
+// frame that was written did not come out in time, the scenario is set up again from scratch.
 func execGcm(opsS string) (res h.Result) {
+	for try := 0; try < 3; try++ {
+		var forgedAsWritten bool
+		res, forgedAsWritten = execGcmOnce(opsS)
+		if forgedAsWritten {
+			break
+		}
+	}
+	return
+}
+
+func execGcmOnce(opsS string) (res h.Result, ok bool) {
 	ops := split(opsS)
 	recv := startReceiverAs("B", func([]byte) string { return "" }, nil)
 	defer recv.node.Leave()
@@ -422,6 +436,16 @@ func execGcm(opsS string) (res h.Result) {
 	if alive {
 		al = "yes"
 	}
+	wantD7 := 0
+	for _, op := range ops {
+		switch op {
+		case "P":
+			wantD7--
+		case "N":
+			wantD7++
+		}
+	}
+	ok = recovered && okSend && back && pong == wantPong && ping[7]-sent[7] == wantD7
 	res.Impl = fmt.Sprintf("gcm h=%s dping7=%d ping8=%d ping9=%d pong=%d conn=%s alive=%s", hs, ping[7]-sent[7], ping[8], ping[9], pong, conn, al)
 	switch {
 	case !okSend:
